@@ -12,8 +12,16 @@ import "sort"
 //          cases or keep them to exhibit the loss.
 type renderOut struct {
 	Text        string
+	RefText     string // schema text for the reference validator when it must differ from Text ("" = use Text)
 	Unsupported []string
 	Notes       []string
+}
+
+func (r renderOut) refText() string {
+	if r.RefText != "" {
+		return r.RefText
+	}
+	return r.Text
 }
 
 func (r *renderOut) unsupported(tag string) {
@@ -185,7 +193,8 @@ func (r *jsRenderer) field(f Field) JV {
 		t.set("default", f.Default.clone())
 	}
 	if f.Nullable {
-		return jObj(kv("oneOf", jArr(t, jObj(kv("type", jStr("null"))))))
+		// anyOf rather than oneOf: `null` may also satisfy T itself (any, const null-able unions)
+		return jObj(kv("anyOf", jArr(t, jObj(kv("type", jStr("null"))))))
 	}
 	return t
 }
